@@ -106,17 +106,21 @@ var slices = map[string]slice{
 	// second live entry, foreign 6-byte token, 4-byte token (not this forwarder's format)
 	"tokens": {
 		inames: []string{"/a", "/a/b"}, ifaces: []uint64{fwsim.L1, fwsim.N3, fwsim.N4}, shapes: []string{"", "tok", "cbp+tok"},
-		dnames: []string{"/a", "/a/b", "/localhost/x"}, dfaces: []uint64{fwsim.N2}, dtoks: []string{"none", "echo0", "echo1", "foreign", "four"}, dfresh: []bool{false},
-		dextra: []dOp{{face: fwsim.N4, name: "/a/b", tok: "echo0"}, {face: fwsim.L1, name: "/a", tok: "echo1"}},
-		tops:   []tOp{t100},
+		dnames: []string{"/a", "/a/b"}, dfaces: []uint64{fwsim.N2}, dtoks: []string{"none", "echo0", "echo1", "foreign", "four"}, dfresh: []bool{false},
+		// a token-addressed Data may carry any name: /localhost/x from a local face towards
+		// non-local downstreams is where "scope rules permitting" applies
+		dextra: []dOp{{face: fwsim.N4, name: "/a/b", tok: "echo0"}, {face: fwsim.L1, name: "/a", tok: "echo1"},
+			{face: fwsim.L1, name: "/localhost/x", tok: "echo0"}, {face: fwsim.N2, name: "/localhost/x", tok: "echo0"}},
+		tops: []tOp{t100},
 	},
 	// CanBePrefix x MustBeFresh (up to four PIT entries per name: the multi-match branch),
 	// freshness of the Data, cache hits
 	"flags": {
-		inames: []string{"/a", "/a/b"}, ifaces: []uint64{fwsim.L1, fwsim.N3}, shapes: []string{"", "cbp", "mbf", "cbp+mbf", "mbf+tok"},
-		iextra: []iOp{{face: fwsim.A6, name: "/a"}, {face: fwsim.A6, name: "/a", cbp: true}},
-		dnames: []string{"/a", "/a/b"}, dfaces: []uint64{fwsim.N2, fwsim.A6}, dtoks: []string{"none", "echo0"}, dfresh: []bool{false, true},
-		tops: []tOp{t100, t600},
+		inames: []string{"/a", "/a/b"}, ifaces: []uint64{fwsim.L1, fwsim.N3}, shapes: []string{"", "cbp", "mbf", "cbp+mbf"},
+		iextra: []iOp{{face: fwsim.A6, name: "/a"}, {face: fwsim.A6, name: "/a", cbp: true}, {face: fwsim.L1, name: "/a", mbf: true, tok: true}},
+		dnames: []string{"/a", "/a/b"}, dfaces: []uint64{fwsim.N2}, dtoks: []string{"none", "echo0"}, dfresh: []bool{false, true},
+		dextra: []dOp{{face: fwsim.A6, name: "/a"}, {face: fwsim.A6, name: "/a/b"}},
+		tops:   []tOp{t100, t600},
 	},
 	// lifetimes, expiry with and without the reaper having run, retransmissions with fresh and
 	// with repeated nonces (loop detection, dead nonce list)
@@ -586,7 +590,7 @@ func configs(th bool) []explore.Config {
 		c = append(c, explore.Config{Name: fmt.Sprintf("%s %s %s %s", sl, st, cs, fib), MaxDepth: devDepth(depth), MaxDev: -1})
 	}
 	chain := func(st, cs, fib string, depth, maxDev int) {
-		c = append(c, explore.Config{Name: fmt.Sprintf("chain %s %s %s", st, cs, fib), MaxDepth: devDepth(depth), MaxDev: maxDev})
+		c = append(c, explore.Config{Name: fmt.Sprintf("chain %s %s %s dev<=%d", st, cs, fib, maxDev), MaxDepth: devDepth(depth), MaxDev: maxDev})
 	}
 	if os.Getenv("VERIF_ONLY") == "chain" {
 		chain("br", "cs1", "tree", 6, 1)
@@ -610,16 +614,23 @@ func configs(th bool) []explore.Config {
 		chain("br", "cs0", "ht", 7, 1)
 		return c
 	}
-	// thorough: every slice x every combination to depth 5, the core alphabet to depth 7,
-	// chains with <=2 deviations to depth 10
+	// thorough: every slice x every combination to depth 5 (the widest alphabet, flags, to depth 4
+	// on the hash-table FIB), the core alphabet to depth 7, chains with <=1 deviation to depth 8
+	// and with <=2 deviations to depth 6
 	for _, st := range []string{"br", "mc"} {
 		for _, cs := range []string{"cs1", "cs0"} {
 			for _, fib := range []string{"tree", "ht"} {
-				for _, sl := range []string{"names", "tokens", "flags", "time"} {
+				for _, sl := range []string{"names", "tokens", "time"} {
 					add(sl, st, cs, fib, 5)
 				}
+				if fib == "tree" {
+					add("flags", st, cs, fib, 5)
+					chain(st, cs, fib, 8, 1)
+					chain(st, cs, fib, 6, 2)
+				} else {
+					add("flags", st, cs, fib, 4)
+				}
 				add("core", st, cs, fib, 7)
-				chain(st, cs, fib, 10, 2)
 			}
 		}
 	}
@@ -701,6 +712,7 @@ func sweep(rep *report.Reporter, cfg string, depth int) map[string]int {
 }
 
 func main() {
+	fwsim.ReplayIfRequested("C01", "C01.panic", build)
 	if len(os.Args) >= 3 && os.Args[1] == "--bench" {
 		bench(os.Args[2])
 		return
